@@ -165,6 +165,42 @@ def job_lagrange(cfg):
     if int_nodes:
         res.record(f"{elemType} tables on integer-typed points", Outcome("held", how="ground-exact") if not bad_int else Outcome("cex", env={}, how="ground", detail=str(bad_int[:3])),
                    lambda env: (bool(bad_int), {"entries_differing_between_integer_and_float_points": len(bad_int), "first": str(bad_int[:3])}), key=f"{elemType} integer-typed evaluation points")
+    # --- (f) what the library hands out AT INTEGRATION POINTS (Get_N_pg, Get_dN_pg, ..., Get_ddddN_pg, every matrix type): entry [p, d, i] is the
+    #     k-th derivative of N_i along axis d - the SYMBOLIC derivative formed above, not the table - at Gauss point p (exact substitution)
+    from EasyFEA.FEM._utils import MatrixType
+
+    getters = {0: grp.Get_N_pg, 1: grp.Get_dN_pg, 2: grp.Get_ddN_pg, 3: grp.Get_dddN_pg, 4: grp.Get_ddddN_pg}
+    ders = {0: [[n_] for n_ in N]}
+    for k in range(1, max_order + 1):
+        ders[k] = [[None] * dim for _ in range(nPe)]
+        for i in range(nPe):
+            for d in range(dim):
+                der = N[i] if k == 1 else ders[k - 1][i][d]
+                ders[k][i][d] = der.diff(vs[d])
+    for mt in ("rigi", "mass"):
+        try:
+            gp = np.asarray(grp.Get_gauss(MatrixType(mt)).coord, dtype=float)
+        except Exception:
+            continue
+        worst = (0.0, None)
+        for k in range(0, max_order + 1):
+            arr = np.asarray(getters[k](MatrixType(mt)), dtype=float)
+            nd = 1 if k == 0 else dim
+            if arr.shape != (gp.shape[0], nd, nPe):
+                worst = (float("inf"), (k, "shape", arr.shape))
+                break
+            for p_ in range(gp.shape[0]):
+                env = {_vid(v): Fraction(float(gp[p_, d])) for d, v in enumerate(vs)}
+                for i in range(nPe):
+                    for d in range(nd):
+                        ref = float(as_sym(ders[k][i][d]).eval(env))
+                        err = abs(float(arr[p_, d, i]) - ref)
+                        if err > worst[0]:
+                            worst = (err, (k, p_, d, i, float(arr[p_, d, i]), ref))
+        ok = worst[0] <= 1e-10
+        res.record(f"{elemType} arrays at the '{mt}' integration points = derivatives of N there (orders 0..{max_order})",
+                   Outcome("held", how="ground-exact") if ok else Outcome("cex", env={}, how="ground", detail=str(worst)),
+                   lambda env, worst=worst: (True, {"worst_error": worst[0], "order_point_axis_function_got_expected": str(worst[1])}), key=f"{elemType} derivative arrays at {mt} integration points")
     # one cvc5 cross-check per element (partition of unity)
     if cross:
         conds = ctx().domain_conds({_vid(v) for v in vs}) + assume
